@@ -127,14 +127,16 @@ package bindnode
 // above, entry by entry (an unsigned integer node goes through the kind-gated assignUInt): there is
 // no path that installs a Go value without the checks. (A future same-type fast path would need a
 // contract of its own saying why the value conforms.)
+//   (C11: going through the copy also gives the receiving value slices and maps of its own; a node
+//   assigned into a builder that is then extended does not change.)
 //@ func (*_assembler).AssignNode(node) (err)
 //@   nosafety
 //@   requires w != nil && node != nil
-//@   before Copy assert[C09] carg0 == node && carg1 == iface(w)
+//@   before Copy assert[C09,C11] carg0 == node && carg1 == iface(w)
 //@   before assignUInt assert[C09] carg0 == w
 //@   after Copy let checked = true
 //@   after assignUInt let checked = true
-//@   ensures[C09] err == nil ==> defined(checked)
+//@   ensures[C09,C11] err == nil ==> defined(checked)
 //@ func (*_assemblerRepr).AssignNode(node) (err)
 //@   nosafety
 //@   requires w != nil && node != nil
